@@ -10,11 +10,13 @@ package pools
 // calls (real delta, empty delta, repeated, delayed).  One line per history (see
 // coq/model/TxPoolCheck.v for the format).  After every pool call the harness records the
 // pool's observable state and, independently of the pool, replays the pending groups on a fresh
-// evaluator started on the ledger's latest block (the spec oracle).
+// evaluator started on the ledger's latest block (the spec oracle), together with the pool's
+// other views of what it holds (PendingTxIDs, Lookup, PendingCount).
 
 import (
 	"encoding/binary"
 	"errors"
+	"sort"
 	"testing"
 	"time"
 
@@ -260,7 +262,28 @@ func (w *c44World) obs(res string) []interface{} {
 	w.pool.pendingMu.RLock()
 	over := w.pool.stateproofOverflowed
 	w.pool.pendingMu.RUnlock()
-	return vL(vSym(res), ids, nsp, over, npwb, ftm, w.pool.FeePerByte(), sync, w.esync, replay)
+	// the pool's other views of what it holds (sorted by harness id): PendingTxIDs(), every
+	// transaction the harness ever built that Lookup() reports as still in the pool, PendingCount()
+	held := make([]int, 0)
+	for _, txid := range w.pool.PendingTxIDs() {
+		x, ok := w.byTxid[txid]
+		if !ok {
+			w.t.Fatalf("PendingTxIDs holds a transaction the harness never built")
+		}
+		held = append(held, x.id)
+	}
+	sort.Ints(held)
+	heldT := make([]interface{}, len(held))
+	for i, v := range held {
+		heldT[i] = v
+	}
+	lkp := make([]interface{}, 0)
+	for _, x := range w.all {
+		if _, txErr, found := w.pool.Lookup(x.stxn.ID()); found && txErr == "" {
+			lkp = append(lkp, x.id)
+		}
+	}
+	return vL(vSym(res), ids, nsp, over, npwb, ftm, w.pool.FeePerByte(), sync, w.esync, replay, heldT, lkp, w.pool.PendingCount())
 }
 
 func (w *c44World) remember(g []*c44Tx) string {
